@@ -26,6 +26,7 @@ EXPLANATION = (
     "clauses and arguments in declaration order. Decides these clauses, not textual fidelity of every "
     "declaration."
     ' R4: literal case is preserved (masking before case folding) and argument attributes are complete. R5: the kind/len selector regexes capture the whole expression (E2). R6: relurl rewrites links and absolute paths only.'
+    " Added after waves 6/7 - literals in kind/len selectors and array specifications are put back; replacement templates are escaped; the restoring loop's cursor is measured on the inserted text; selector slots are filled at most once."
 )
 ASSUMPTIONS = [
     "escaping filters are e/escape/forceescape/striptags/urlencode",
@@ -77,6 +78,40 @@ def restoration_sites(py) -> List[Tuple[str, ast.AST, str]]:
                         name = t.id if isinstance(t, ast.Name) else (t.attr if isinstance(t, ast.Attribute) else ast.unparse(t))
                         out.append((name, n, py.qualname(fn)))
                         ORIGINS[id(n)] = (fn, c)
+            # the same restoration by splicing: `text = text[:a] + <literal> + text[b:]` inside a loop that searches for the
+            # placeholders with QUOTES_RE
+            if isinstance(n.value, ast.BinOp) and isinstance(n.value.op, ast.Add) and len(n.targets) == 1 and \
+                    isinstance(n.targets[0], (ast.Name, ast.Attribute)):
+                tgt = ast.unparse(n.targets[0])
+                parts = []
+
+                def flat(e):
+                    if isinstance(e, ast.BinOp) and isinstance(e.op, ast.Add):
+                        flat(e.left)
+                        flat(e.right)
+                    else:
+                        parts.append(e)
+                flat(n.value)
+                slices = [p_ for p_ in parts if isinstance(p_, ast.Subscript) and isinstance(p_.slice, ast.Slice) and ast.unparse(p_.value) == tgt]
+                mids = [p_ for p_ in parts if p_ not in slices]
+                in_search_loop = False
+                q_ = n
+                while q_ in py.parents and q_ is not fn:
+                    q_ = py.parents[q_]
+                    if isinstance(q_, ast.While) and "QUOTES_RE" in ast.unparse(q_.test):
+                        in_search_loop = True
+                if len(slices) == 2 and len(mids) == 1 and in_search_loop:
+                    x = mids[0]
+                    uses = "strings[" in ast.unparse(x) or (isinstance(x, ast.Name) and any(
+                        "strings[" in ast.unparse(y) for y in astq.expand_locals(x, fn, depth=6)))
+                    if uses:
+                        t = n.targets[0]
+                        name = t.id if isinstance(t, ast.Name) else t.attr
+                        fake = ast.copy_location(ast.Call(func=ast.Attribute(value=ast.Name(id="QUOTES_RE", ctx=ast.Load()), attr="sub", ctx=ast.Load()),
+                                                          args=[x, n.targets[0]], keywords=[]), n)
+                        ast.fix_missing_locations(fake)
+                        out.append((name, n, py.qualname(fn)))
+                        ORIGINS[id(n)] = (fn, fake)
     # a restoration inside a helper whose result is returned: the real targets are the assignment targets at the
     # helper's call sites  (initial = _restore_string_literals(initial, parent.strings))
     for _ in range(2):
@@ -114,8 +149,14 @@ def restoration_helpers(py) -> Set[str]:
         if mod != "sourceform":
             continue
         for n in ast.walk(fn):
-            if isinstance(n, ast.Assign) and py.enclosing_function(n) is fn and isinstance(n.targets[0], ast.Name) and any(
-                    call_name(c) == "QUOTES_RE.sub" for c in py.walk_calls(n.value)):
+            splice = isinstance(n, ast.Assign) and isinstance(n.value, ast.BinOp) and isinstance(n.value.op, ast.Add) and \
+                isinstance(n.targets[0], ast.Name) and sum(
+                    1 for p_ in ast.walk(n.value) if isinstance(p_, ast.Subscript) and isinstance(p_.slice, ast.Slice)
+                    and ast.unparse(p_.value) == n.targets[0].id) == 2 and any(
+                        isinstance(w_, ast.While) and "QUOTES_RE" in ast.unparse(w_.test) and any(x is n for x in ast.walk(w_))
+                        for w_ in ast.walk(fn))
+            if isinstance(n, ast.Assign) and py.enclosing_function(n) is fn and isinstance(n.targets[0], ast.Name) and (splice or any(
+                    call_name(c) == "QUOTES_RE.sub" for c in py.walk_calls(n.value))):
                 name = n.targets[0].id
                 if any(isinstance(r, ast.Return) and isinstance(r.value, ast.Name) and r.value.id == name for r in ast.walk(fn)) and \
                         any("strings[" in ast.unparse(x) or (isinstance(x, ast.Subscript) and isinstance(x.value, ast.Name)
@@ -302,6 +343,20 @@ def r2_no_transform_after_restore(ctx, rep):
                 f"`{ast.unparse(bad[0])[:80]}` rewrites `{name}` after the character literals were put "
                 f"back: the displayed literal differs from the source"),
                py.nloc(bad[0] if bad else node))
+    # the restored text handed straight to a rewriting call: `COMMA_RE.sub(", ", _restore_strings(initial, ...))`
+    helpers_ = restoration_helpers(py)
+    for mod_, fn_ in py.all_functions():
+        if mod_ != "sourceform" or fn_.name in helpers_:
+            continue
+        for c in ast.walk(fn_):
+            if isinstance(c, ast.Call) and call_name(c).split(".")[-1] in helpers_:
+                par = py.parents.get(c)
+                if isinstance(par, ast.Call) and c in par.args and isinstance(par.func, ast.Attribute) and \
+                        par.func.attr in ("sub", "subn", "replace", "lower", "upper", "strip", "translate", "title", "casefold"):
+                    n += 1
+                    rep.ob(f"restored value in {py.qualname(fn_)} is handed to `{ast.unparse(par.func)}`", False,
+                           f"`{ast.unparse(par)[:80]}` rewrites the text after the character literals were put back: the "
+                           f"displayed literal differs from the source", py.nloc(par))
     # the only transformations of the literal text itself are the two documented ones: look at what reaches the
     # replacement argument of QUOTES_RE.sub at the restoration that feeds `initial` (helpers are followed)
     ltv = py.func("sourceform.line_to_variables")
@@ -716,6 +771,10 @@ def r11_displayed_text_is_unmasked(ctx, rep):
     def is_restored(fn, q: str, value: ast.AST, at: int) -> bool:
         if isinstance(value, ast.Call) and call_name(value).split(".")[-1] in helpers:
             return True          # restored on the spot: f(_restore(x))
+        if isinstance(value, ast.IfExp):
+            # `None if x is None else restore(x)`: the constant branch has nothing to restore
+            branches = [b for b in (value.body, value.orelse) if not isinstance(b, ast.Constant)]
+            return bool(branches) and all(is_restored(fn, q, b, at) for b in branches)
         seen: Set[str] = set()
         todo = [(n.id, at) for n in ast.walk(value) if isinstance(n, ast.Name)]
         while todo:
@@ -796,6 +855,19 @@ def r12_sub_templates(ctx, rep):
     c02.r9_sub_templates(ctx, rep)
 
 
+def r13_restoration_cursor(ctx, rep):
+    """every placeholder is restored: the restoring loop's cursor lands right behind the text it inserted (shared with
+    C02.R6 / C20.R4)"""
+    from . import c20
+    c20.r4_cursor_progress(ctx, rep)
+
+
+def r14_selector_slots(ctx, rep):
+    """`character(80, 4)`: positional selectors fill len, then kind; no slot is overwritten (shared with C01.R5)"""
+    from . import c01
+    c01.r5_character_slots(ctx, rep)
+
+
 RULES = [
     RuleSpec("C18.R5", r5_selector_regexes, "kind/len selector regexes capture the whole expression", floor=2),
     RuleSpec("C18.R4", r4_literals_and_argument_attributes, "literal case is preserved; argument attributes are complete", floor=3),
@@ -810,4 +882,6 @@ RULES = [
     RuleSpec("C18.R11", r11_displayed_text_is_unmasked, "text kept for display has its literals put back", floor=2),
     RuleSpec("C18.R8", r8_literal_continuation, "continued literals keep their blanks (shared with C02.R5)", floor=3),
     RuleSpec("C18.R12", r12_sub_templates, "restored literals survive the replacement template (shared with C02.R9)", floor=5),
+    RuleSpec("C18.R13", r13_restoration_cursor, "the restoring loop advances past what it inserted (shared with C20.R4)", floor=2),
+    RuleSpec("C18.R14", r14_selector_slots, "character selector slots are filled at most once (shared with C01.R5)", floor=2),
 ]
